@@ -339,6 +339,11 @@ ApplyCore(st, s, B) ==
                     t == IF IIsZero(s.c) THEN [st EXCEPT !.addc = new] ELSE [st EXCEPT !.subc = new]
                 IN IF s.m = 1 /\ old = 2 THEN [st |-> t, br |-> "ret", dc |-> {"*"}]
                    ELSE [st |-> t, br |-> IF s.m = 1 THEN (IF old = 0 THEN "c0" ELSE "c1") ELSE "ret"]
+         \* exact variants: the destination is the bit address of digit sh of the variable (m = 1: ^= the bit src, m = 0: ^= 1)
+         [] s.k = "xor_at"   -> Ret(Set1(st, s.v[1], IBitwise("^", V(1), IShl(IF s.m = 1 THEN Low(B, V(2), 1) ELSE IOne, s.sh))))
+         [] s.k = "xor_at2"  -> LET b == Low(B, V(3), 1)          \* two destinations: digit sh of v1, digit m of v2
+                                IN Ret([st EXCEPT !.vals[s.v[1]] = IBitwise("^", V(1), IShl(b, s.sh)),
+                                                  !.vals[s.v[2]] = IBitwise("^", V(2), IShl(b, s.m))])
          [] s.k = "shl_bit"  -> P1(IShl(L(1), 1))
          [] s.k = "shr_bit"  -> P1(IShr(L(1), 1))
          [] s.k = "shl"      -> P1(IShl(L(1), (IF B = 16 THEN 4 ELSE 1) * s.sh))          \* shl_hex n, times / bit.shl n, times
